@@ -20,7 +20,8 @@ func init() {
 			"D3 the search helper is a correct binary search step: with the inductive invariant size = last-first+1, 1<=first, it probes a position inside [first,last], the arm taken when the value ranks before the probe keeps [first, middle-1], the arm taken when it ranks after keeps [middle+1, last], the equal arm returns (probe position, true), all three ranks are handled, the interval shrinks strictly (termination), and on exhaustion it returns (first-1, false) = the number of elements ranking before the value; " +
 			"D4 all loops of the set type and class are in terminating forms (the search loop by D3's strict decrease)." +
 			" Also: ContainsAny/ContainsAll of an empty operand are false/true." +
-			" Round 7: no dynamic == on element values; RemoveAll clears on every path not selected by an emptiness test; with a mutex field, no locking method of the receiver - or of an operand that may be the receiver - is called inside a lock region.",
+			" Round 7: no dynamic == on element values; RemoveAll clears on every path not selected by an emptiness test; with a mutex field, no locking method of the receiver - or of an operand that may be the receiver - is called inside a lock region." +
+			" Rounds 8-9: readers assign no field; membership is not decided by comparing sizes.",
 		NotDecided: "that the stored list is sorted to begin with is the induction hypothesis of D3, maintained by D1+D3 only together with the list's element placement (C01 not-decided part) and a collator that is a total preorder (C07).",
 		Run:        runC02,
 	})
